@@ -37,6 +37,7 @@ type ioFn struct {
 	info *types.Info
 	fd   *ast.FuncDecl
 	name string
+	ren  map[string]string
 }
 
 func ioFunc(c *core.Ctx, p *load.Prog, name string) *ioFn {
@@ -50,6 +51,104 @@ func ioFunc(c *core.Ctx, p *load.Prog, name string) *ioFn {
 }
 
 func (f *ioFn) pos() string { return f.p.Pos(f.fd.Pos()) + " (iohelp." + f.name + ")" }
+
+// renames maps the receiver and parameter names of the function to the names
+// the rules below are written against, by role (type), so that a renamed
+// parameter changes nothing: receiver of ErrorReader/ErrorWriter methods =
+// er/ew; a *ErrorReader / *ErrorWriter parameter = r / w; a []byte parameter =
+// buf in the ...Bytes helpers and b elsewhere.
+func (f *ioFn) renames() map[string]string {
+	if f.ren != nil {
+		return f.ren
+	}
+	f.ren = map[string]string{}
+	role := func(id *ast.Ident, recv bool) {
+		o := f.info.ObjectOf(id)
+		if o == nil || id.Name == "_" {
+			return
+		}
+		t := o.Type().String()
+		want := ""
+		switch {
+		case strings.HasSuffix(t, "iohelp.ErrorReader"):
+			want = "r"
+			if recv {
+				want = "er"
+			}
+		case strings.HasSuffix(t, "iohelp.ErrorWriter"):
+			want = "w"
+			if recv {
+				want = "ew"
+			}
+		case t == "[]byte" && !recv:
+			want = "b"
+			if strings.Contains(f.name, "Bytes") {
+				want = "buf"
+			}
+		}
+		if want != "" && want != id.Name {
+			if _, dup := f.ren[id.Name]; !dup {
+				f.ren[id.Name] = want
+			}
+		}
+	}
+	if f.fd.Recv != nil {
+		for _, fl := range f.fd.Recv.List {
+			for _, n := range fl.Names {
+				role(n, true)
+			}
+		}
+	}
+	seenBytes := false
+	for _, fl := range f.fd.Type.Params.List {
+		for _, n := range fl.Names {
+			if o := f.info.ObjectOf(n); o != nil && o.Type().String() == "[]byte" {
+				if seenBytes {
+					continue
+				}
+				seenBytes = true
+			}
+			role(n, false)
+		}
+	}
+	return f.ren
+}
+
+// canon renders an expression like wire.Canon, with the function's receiver
+// and parameters spelled by role.
+func (f *ioFn) canon(e ast.Expr) string { return f.renameWords(wire.Canon(e)) }
+
+// text is the whitespace-normalised source of the body under the same renaming.
+func (f *ioFn) text() string { return f.renameWords(strings.Join(strings.Fields(srcOf(f.p, f.fd.Body)), " ")) }
+
+func (f *ioFn) renameWords(s string) string {
+	ren := f.renames()
+	if len(ren) == 0 {
+		return s
+	}
+	var b strings.Builder
+	i := 0
+	for i < len(s) {
+		c := s[i]
+		if c == '_' || (c >= 'a' && c <= 'z') || (c >= 'A' && c <= 'Z') {
+			j := i
+			for j < len(s) && (s[j] == '_' || (s[j] >= 'a' && s[j] <= 'z') || (s[j] >= 'A' && s[j] <= 'Z') || (s[j] >= '0' && s[j] <= '9')) {
+				j++
+			}
+			w := s[i:j]
+			// a selector's field name (preceded by '.') is never a parameter
+			if to, ok := ren[w]; ok && (i == 0 || s[i-1] != '.') {
+				w = to
+			}
+			b.WriteString(w)
+			i = j
+			continue
+		}
+		b.WriteByte(c)
+		i++
+	}
+	return b.String()
+}
 
 // probes returns N for every `_ = x[N]` in the function.
 func (f *ioFn) probes() []int {
@@ -96,7 +195,7 @@ func (f *ioFn) unsafeCasts() (pointees []types.Type, indexZero bool) {
 			return true
 		}
 		inner, ok := ast.Unparen(call.Args[0]).(*ast.CallExpr)
-		if !ok || wire.Canon(inner.Fun) != "unsafe.Pointer" || len(inner.Args) != 1 {
+		if !ok || f.canon(inner.Fun) != "unsafe.Pointer" || len(inner.Args) != 1 {
 			return true
 		}
 		pointees = append(pointees, pt.Elem())
@@ -200,8 +299,20 @@ func iohelpLayoutRules(c *core.Ctx, p *load.Prog, rWidth, rGUID, rBuild string) 
 			})
 			c.Check(rWidth, f.name+" touches only byte 0", f.pos(), ok && idx >= 1, "a one-byte wire type must read/write index 0 only")
 			if stem == "Bool" && dir == "Read" {
-				src := strings.Join(strings.Fields(srcOf(p, f.fd.Body)), " ")
-				c.Check(rWidth, f.name+" decodes 1 as true", f.pos(), strings.Contains(src, "[0] == 1") || strings.Contains(src, "[0] != 0"), "bool decode must test the byte against 1 (or non-zero): "+src)
+				okb := false
+				ast.Inspect(f.fd.Body, func(nd ast.Node) bool {
+					if be, is := nd.(*ast.BinaryExpr); is {
+						if ix, isIx := ast.Unparen(be.X).(*ast.IndexExpr); isIx {
+							i0, ok0 := constInt(f.info, ix.Index)
+							v, okv := constInt(f.info, be.Y)
+							if ok0 && okv && i0 == 0 && ((be.Op == token.EQL && v == 1) || (be.Op == token.NEQ && v == 0)) {
+								okb = true
+							}
+						}
+					}
+					return true
+				})
+				c.Check(rWidth, f.name+" decodes 1 as true", f.pos(), okb, "bool decode must test byte 0 against 1 (or non-zero)")
 			}
 			if stem == "Bool" && dir == "Write" {
 				okw := boolWriteOK(f)
@@ -218,24 +329,70 @@ func iohelpLayoutRules(c *core.Ctx, p *load.Prog, rWidth, rGUID, rBuild string) 
 				continue
 			}
 			n += 2
-			rs := strings.Join(strings.Fields(srcOf(p, rd.fd.Body)), " ")
-			ws := strings.Join(strings.Fields(srcOf(p, wr.fd.Body)), " ")
-			c.Check(rWidth, rd.name+" = "+fl.from+"(Read"+fl.via+variant+")", rd.pos(), strings.Contains(rs, fl.from+"(Read"+fl.via+variant+"("), rs)
-			c.Check(rWidth, wr.name+" = Write"+fl.via+variant+"("+fl.to+")", wr.pos(), strings.Contains(ws, "Write"+fl.via+variant+"(") && strings.Contains(ws, fl.to+"("), ws)
+			okr, okw := false, false
+			for _, call := range rd.calls() {
+				if wire.Canon(call.Fun) == fl.from && len(call.Args) == 1 {
+					if in, ok := ast.Unparen(call.Args[0]).(*ast.CallExpr); ok && wire.Canon(in.Fun) == "Read"+fl.via+variant {
+						okr = true
+					}
+				}
+			}
+			for _, call := range wr.calls() {
+				if wire.Canon(call.Fun) == "Write"+fl.via+variant {
+					for _, a := range call.Args {
+						if in, ok := ast.Unparen(a).(*ast.CallExpr); ok && wire.Canon(in.Fun) == fl.to {
+							okw = true
+						}
+					}
+				}
+			}
+			c.Check(rWidth, rd.name+" = "+fl.from+"(Read"+fl.via+variant+")", rd.pos(), okr, "the float must be rebuilt from the bits of the same-width integer read")
+			c.Check(rWidth, wr.name+" = Write"+fl.via+variant+"("+fl.to+")", wr.pos(), okw, "the float must be written as the bits of the same-width integer")
 		}
 	}
 	// date: ticks * 100, tick 0 <-> zero time
 	if f := ioFunc(c, p, "ReadDateBytes"); f != nil {
 		n++
-		src := strings.Join(strings.Fields(srcOf(p, f.fd.Body)), " ")
 		mul := dateMultiplier(f)
-		c.Check(rWidth, "ReadDateBytes scales ticks by 100", f.pos(), mul == 100 && strings.Contains(src, "ReadInt64Bytes("), fmt.Sprintf("multiplier found: %d; the wire format counts 100ns ticks: %s", mul, src))
-		c.Check(rWidth, "ReadDateBytes maps tick 0 to the zero time", f.pos(), strings.Contains(src, "== 0") && strings.Contains(src, "time.Time{}"), src)
-		c.Check(rWidth, "ReadDateBytes yields UTC", f.pos(), strings.Contains(src, "time.Unix(0,") && strings.Contains(src, ".UTC()"), src)
+		reads64, unix0, utc, zeroTest, zeroTime := false, false, false, false, false
+		ast.Inspect(f.fd.Body, func(nd ast.Node) bool {
+			switch x := nd.(type) {
+			case *ast.CallExpr:
+				fn := wire.Canon(x.Fun)
+				if fn == "ReadInt64Bytes" {
+					reads64 = true
+				}
+				if fn == "time.Unix" && len(x.Args) == 2 {
+					if v, ok := constInt(f.info, x.Args[0]); ok && v == 0 {
+						unix0 = true
+					}
+				}
+				if sel, ok := x.Fun.(*ast.SelectorExpr); ok && sel.Sel.Name == "UTC" && len(x.Args) == 0 {
+					utc = true
+				}
+			case *ast.BinaryExpr:
+				if v, ok := constInt(f.info, x.Y); ok && v == 0 && x.Op == token.EQL {
+					zeroTest = true
+				}
+			case *ast.CompositeLit:
+				if wire.Canon(x.Type) == "time.Time" && len(x.Elts) == 0 {
+					zeroTime = true
+				}
+			}
+			return true
+		})
+		c.Check(rWidth, "ReadDateBytes scales ticks by 100", f.pos(), mul == 100 && reads64, fmt.Sprintf("multiplier found: %d, ticks read as int64: %v; the wire format counts 100ns ticks", mul, reads64))
+		c.Check(rWidth, "ReadDateBytes maps tick 0 to the zero time", f.pos(), zeroTest && zeroTime, "no `== 0` test returning time.Time{}")
+		c.Check(rWidth, "ReadDateBytes yields UTC", f.pos(), unix0 && utc, "the time must be built with time.Unix(0, nanos).UTC()")
 	}
 	if f := ioFunc(c, p, "ReadDate"); f != nil {
-		src := strings.Join(strings.Fields(srcOf(p, f.fd.Body)), " ")
-		c.Check(rWidth, "ReadDate = ReadDateBytes(scratch)", f.pos(), strings.Contains(src, "ReadDateBytes(r.buffer)"), src)
+		okd := false
+		for _, call := range f.calls() {
+			if f.canon(call) == "ReadDateBytes(r.buffer)" {
+				okd = true
+			}
+		}
+		c.Check(rWidth, "ReadDate = ReadDateBytes(scratch)", f.pos(), okd, "no call ReadDateBytes(<reader>.buffer)")
 	}
 	// GUID tables
 	guidTables(c, p, rGUID)
@@ -381,8 +538,18 @@ func guidTables(c *core.Ctx, p *load.Prog, rule string) {
 		// flipped[j] = guid[t[j]] => wire position j holds value byte t[j]
 		t, ok := lit(f)
 		c.Check(rule, "WriteGUID permutation == spec", f.pos(), ok && equalInts(t, spec), fmt.Sprintf("table %v, wire format %v", t, spec))
-		src := strings.Join(strings.Fields(srcOf(p, f.fd.Body)), " ")
-		c.Check(rule, "WriteGUID writes all 16 bytes", f.pos(), strings.Contains(src, "w.Write(flipped[:])"), src)
+		// the whole permuted array is written: w.Write(X[:]) with X a [16]byte
+		whole := false
+		for _, call := range f.calls() {
+			if f.canon(call.Fun) == "w.Write" && len(call.Args) == 1 {
+				if se, ok := ast.Unparen(call.Args[0]).(*ast.SliceExpr); ok && se.Low == nil && se.High == nil {
+					if arr, ok := f.info.TypeOf(se.X).Underlying().(*types.Array); ok && arr.Len() == 16 {
+						whole = true
+					}
+				}
+			}
+		}
+		c.Check(rule, "WriteGUID writes all 16 bytes", f.pos(), whole, "no Write of the whole 16-byte array")
 	}
 	if f := ioFunc(c, p, "WriteGUIDBytes"); f != nil {
 		t := make([]int, 16)
@@ -418,8 +585,18 @@ func guidTables(c *core.Ctx, p *load.Prog, rule string) {
 		c.Check(rule, "WriteGUIDBytes bounds probe covers 16 bytes", f.pos(), len(pr) == 1 && pr[0] >= 15, fmt.Sprintf("probes %v", pr))
 	}
 	if f := ioFunc(c, p, "ReadGUID"); f != nil {
-		src := strings.Join(strings.Fields(srcOf(p, f.fd.Body)), " ")
-		c.Check(rule, "ReadGUID reads 16 fresh bytes", f.pos(), strings.Contains(src, "make([]byte, 16)") && strings.Contains(src, "r.Read(data)") && strings.Contains(src, "ReadGUIDBytes(data)"), src)
+		buf, size, read := f.freshRead()
+		sz, _ := constInt(f.info, size)
+		decoded := false
+		for _, call := range f.calls() {
+			if wire.Canon(call.Fun) == "ReadGUIDBytes" && len(call.Args) == 1 {
+				if id, ok := ast.Unparen(call.Args[0]).(*ast.Ident); ok && buf != nil && f.info.ObjectOf(id) == buf {
+					decoded = true
+				}
+			}
+		}
+		c.Check(rule, "ReadGUID reads 16 fresh bytes", f.pos(), buf != nil && sz == 16 && read && decoded,
+			fmt.Sprintf("fresh buffer of %d bytes, filled through the ErrorReader: %v, decoded by ReadGUIDBytes: %v", sz, read, decoded))
 	}
 }
 
@@ -444,10 +621,10 @@ func iohelpStreamWidths(c *core.Ctx, p *load.Prog, rule string) {
 			sz := -1
 			ast.Inspect(f.fd.Body, func(n ast.Node) bool {
 				kv, ok := n.(*ast.KeyValueExpr)
-				if !ok || wire.Canon(kv.Key) != "buffer" {
+				if !ok || f.canon(kv.Key) != "buffer" {
 					return true
 				}
-				if call, ok := kv.Value.(*ast.CallExpr); ok && wire.Canon(call.Fun) == "make" && len(call.Args) == 2 {
+				if call, ok := kv.Value.(*ast.CallExpr); ok && f.canon(call.Fun) == "make" && len(call.Args) == 2 {
 					if tv := f.info.Types[call.Args[1]]; tv.Value != nil {
 						fmt.Sscanf(tv.Value.ExactString(), "%d", &sz)
 					}
@@ -466,8 +643,8 @@ func iohelpStreamWidths(c *core.Ctx, p *load.Prog, rule string) {
 			got := -1
 			target := ""
 			for _, call := range f.calls() {
-				if wire.Canon(call.Fun) == "io.ReadFull" && len(call.Args) == 2 {
-					target = wire.Canon(call.Args[0])
+				if f.canon(call.Fun) == "io.ReadFull" && len(call.Args) == 2 {
+					target = f.canon(call.Args[0])
 					got = sliceWidth(f, call.Args[1], "r.buffer", scratch)
 				}
 			}
@@ -480,8 +657,8 @@ func iohelpStreamWidths(c *core.Ctx, p *load.Prog, rule string) {
 							inner, _ = ast.Unparen(inner.Args[0]).(*ast.CallExpr)
 						}
 					}
-					if inner != nil && len(inner.Args) == 1 && wire.Canon(inner.Args[0]) == "r" {
-						fn := wire.Canon(inner.Fun)
+					if inner != nil && len(inner.Args) == 1 && f.canon(inner.Args[0]) == "r" {
+						fn := f.canon(inner.Fun)
 						if strings.HasPrefix(fn, "Read") && stemWidth[strings.TrimPrefix(fn, "Read")] == w && fn != "Read"+stem {
 							continue // the callee carries its own obligations
 						}
@@ -490,8 +667,13 @@ func iohelpStreamWidths(c *core.Ctx, p *load.Prog, rule string) {
 			}
 			c.Check(rule, "Read"+stem+" reads exactly its width", f.pos(), got == w && target == "r", fmt.Sprintf("io.ReadFull(%s, …) of %d bytes; the wire type is %d bytes and must be read through the ErrorReader", target, got, w))
 			if stem != "Bool" && stem != "Byte" && stem != "Uint8" {
-				src := strings.Join(strings.Fields(srcOf(p, f.fd.Body)), " ")
-				c.Check(rule, "Read"+stem+" decodes the scratch with Read"+stem+"Bytes", f.pos(), strings.Contains(src, "Read"+stem+"Bytes(r.buffer)"), src)
+				okd := false
+				for _, call := range f.calls() {
+					if f.canon(call) == "Read"+stem+"Bytes(r.buffer)" {
+						okd = true
+					}
+				}
+				c.Check(rule, "Read"+stem+" decodes the scratch with Read"+stem+"Bytes", f.pos(), okd, "no call Read"+stem+"Bytes(<reader>.buffer)")
 			}
 		}
 		if stem == "Date" {
@@ -502,7 +684,7 @@ func iohelpStreamWidths(c *core.Ctx, p *load.Prog, rule string) {
 			got := -1
 			lit := false
 			for _, call := range f.calls() {
-				if wire.Canon(call.Fun) == "w.Write" && len(call.Args) == 1 {
+				if f.canon(call.Fun) == "w.Write" && len(call.Args) == 1 {
 					if cl, ok := call.Args[0].(*ast.CompositeLit); ok {
 						got = len(cl.Elts)
 						lit = true
@@ -513,21 +695,39 @@ func iohelpStreamWidths(c *core.Ctx, p *load.Prog, rule string) {
 			}
 			c.Check(rule, "Write"+stem+" writes exactly its width", f.pos(), got == w, fmt.Sprintf("writes %d bytes (literal=%v); the wire type is %d bytes", got, lit, w))
 			if !lit {
-				src := strings.Join(strings.Fields(srcOf(p, f.fd.Body)), " ")
-				c.Check(rule, "Write"+stem+" encodes into the scratch with Write"+stem+"Bytes", f.pos(), strings.Contains(src, "Write"+stem+"Bytes(w.buffer,"), src)
+				oke := false
+				for _, call := range f.calls() {
+					if wire.Canon(call.Fun) == "Write"+stem+"Bytes" && len(call.Args) == 2 && f.canon(call.Args[0]) == "w.buffer" {
+						oke = true
+					}
+				}
+				c.Check(rule, "Write"+stem+" encodes into the scratch with Write"+stem+"Bytes", f.pos(), oke, "no call Write"+stem+"Bytes(<writer>.buffer, …)")
 			}
 		}
 	}
 	if f := ioFunc(c, p, "ReadString"); f != nil {
 		n++
-		src := strings.Join(strings.Fields(srcOf(p, f.fd.Body)), " ")
-		c.Check(rule, "ReadString reads a u32 count then exactly that many bytes", f.pos(), strings.Contains(src, "make([]byte, ReadUint32(r))") && strings.Contains(src, "r.Read(data)"), src)
+		buf, size, read := f.freshRead()
+		counted := buf != nil && f.resolvesToCall(size, "ReadUint32")
+		returned := false
+		ast.Inspect(f.fd.Body, func(nd ast.Node) bool {
+			if r, ok := nd.(*ast.ReturnStmt); ok && len(r.Results) == 1 {
+				if call, ok := ast.Unparen(r.Results[0]).(*ast.CallExpr); ok && wire.Canon(call.Fun) == "string" && len(call.Args) == 1 {
+					if id, ok := ast.Unparen(call.Args[0]).(*ast.Ident); ok && f.info.ObjectOf(id) == buf {
+						returned = true
+					}
+				}
+			}
+			return true
+		})
+		c.Check(rule, "ReadString reads a u32 count then exactly that many bytes", f.pos(), counted && read && returned,
+			fmt.Sprintf("buffer sized by ReadUint32: %v, filled through the ErrorReader: %v, returned as the string: %v", counted, read, returned))
 	}
 	if f := ioFunc(c, p, "ErrorReader.Read"); f != nil {
 		n++
 		ok := false
 		for _, call := range f.calls() {
-			if wire.Canon(call.Fun) == "io.ReadFull" && len(call.Args) == 2 && wire.Canon(call.Args[0]) == "er.Reader" && wire.Canon(call.Args[1]) == "b" {
+			if f.canon(call.Fun) == "io.ReadFull" && len(call.Args) == 2 && f.canon(call.Args[0]) == "er.Reader" && f.canon(call.Args[1]) == "b" {
 				ok = true
 			}
 		}
@@ -540,10 +740,10 @@ func iohelpStreamWidths(c *core.Ctx, p *load.Prog, rule string) {
 // sliceWidth: width of base or base[:k].
 func sliceWidth(f *ioFn, e ast.Expr, base string, scratch int) int {
 	e = ast.Unparen(e)
-	if wire.Canon(e) == base {
+	if f.canon(e) == base {
 		return scratch
 	}
-	if se, ok := e.(*ast.SliceExpr); ok && wire.Canon(se.X) == base && se.Low == nil && se.High != nil {
+	if se, ok := e.(*ast.SliceExpr); ok && f.canon(se.X) == base && se.Low == nil && se.High != nil {
 		if tv := f.info.Types[se.High]; tv.Value != nil {
 			var k int
 			fmt.Sscanf(tv.Value.ExactString(), "%d", &k)
@@ -572,16 +772,16 @@ func iohelpCheckedStrings(c *core.Ctx, p *load.Prog, rule string) {
 			}
 			ast.Inspect(s, func(n ast.Node) bool {
 				se, ok := n.(*ast.SliceExpr)
-				if !ok || wire.Canon(se.X) != "buf" {
+				if !ok || f.canon(se.X) != "buf" {
 					return true
 				}
 				sliceSeen = true
 				for _, g := range guards {
 					b, ok := ast.Unparen(g).(*ast.BinaryExpr)
-					if !ok || b.Op != token.LSS || wire.Canon(b.X) != "len(buf)" {
+					if !ok || b.Op != token.LSS || f.canon(b.X) != "len(buf)" {
 						continue
 					}
-					rhs := wire.Canon(b.Y)
+					rhs := f.canon(b.Y)
 					if rhs == "4" {
 						okLen4 = true
 					}
@@ -597,9 +797,9 @@ func iohelpCheckedStrings(c *core.Ctx, p *load.Prog, rule string) {
 		}
 		badIdx := ""
 		ast.Inspect(f.fd.Body, func(n ast.Node) bool {
-			if ix, ok := n.(*ast.IndexExpr); ok && wire.Canon(ix.X) == "buf" {
+			if ix, ok := n.(*ast.IndexExpr); ok && f.canon(ix.X) == "buf" {
 				if k, ok := constInt(f.info, ix.Index); !ok || k >= 4 {
-					badIdx = wire.Canon(ix)
+					badIdx = f.canon(ix)
 				}
 			}
 			return true
@@ -632,7 +832,7 @@ func readClearsOnFailure(c *core.Ctx, p *load.Prog) bool {
 	// already latched error) leaves the destination untouched as well
 	isClear := func(s ast.Stmt) bool {
 		if es, ok := s.(*ast.ExprStmt); ok {
-			if call, ok := es.X.(*ast.CallExpr); ok && wire.Canon(call.Fun) == "clear" && len(call.Args) == 1 && wire.Canon(call.Args[0]) == "b" {
+			if call, ok := es.X.(*ast.CallExpr); ok && f.canon(call.Fun) == "clear" && len(call.Args) == 1 && f.canon(call.Args[0]) == "b" {
 				return true
 			}
 		}
@@ -648,7 +848,7 @@ func readClearsOnFailure(c *core.Ctx, p *load.Prog) bool {
 			}
 			switch x := s.(type) {
 			case *ast.ReturnStmt:
-				if n := len(x.Results); n == 2 && wire.Canon(x.Results[n-1]) != "nil" && !cl {
+				if n := len(x.Results); n == 2 && f.canon(x.Results[n-1]) != "nil" && !cl {
 					earlyBad = true
 				}
 			case *ast.IfStmt:
@@ -670,7 +870,7 @@ func readClearsOnFailure(c *core.Ctx, p *load.Prog) bool {
 	for i, s := range f.fd.Body.List {
 		touches := false
 		ast.Inspect(s, func(n ast.Node) bool {
-			if sel, ok := n.(*ast.SelectorExpr); ok && wire.Canon(sel) == "er.Reader" {
+			if sel, ok := n.(*ast.SelectorExpr); ok && f.canon(sel) == "er.Reader" {
 				touches = true
 			}
 			return true
@@ -706,15 +906,15 @@ func readClearsOnFailure(c *core.Ctx, p *load.Prog) bool {
 			}
 			switch y := m.(type) {
 			case *ast.CallExpr:
-				if wire.Canon(y.Fun) == "clear" && len(y.Args) == 1 && wire.Canon(y.Args[0]) == "b" {
+				if f.canon(y.Fun) == "clear" && len(y.Args) == 1 && f.canon(y.Args[0]) == "b" {
 					cleared = true
 				}
 			case *ast.RangeStmt:
-				if strings.HasPrefix(wire.Canon(y.X), "b") {
+				if strings.HasPrefix(f.canon(y.X), "b") {
 					ast.Inspect(y.Body, func(k ast.Node) bool {
 						if as, ok := k.(*ast.AssignStmt); ok && len(as.Rhs) == 1 {
 							if tv := f.info.Types[as.Rhs[0]]; tv.Value != nil && tv.Value.ExactString() == "0" {
-								if ix, ok := as.Lhs[0].(*ast.IndexExpr); ok && wire.Canon(ix.X) == "b" {
+								if ix, ok := as.Lhs[0].(*ast.IndexExpr); ok && f.canon(ix.X) == "b" {
 									cleared = true
 								}
 							}
@@ -759,13 +959,13 @@ func iohelpStaleReads(c *core.Ctx, p *load.Prog, rule string) {
 				}
 			}
 			ast.Inspect(s, func(nd ast.Node) bool {
-				if call, ok := nd.(*ast.CallExpr); ok && wire.Canon(call.Fun) == "io.ReadFull" && len(call.Args) == 2 && wire.Canon(call.Args[0]) == "r" {
+				if call, ok := nd.(*ast.CallExpr); ok && f.canon(call.Fun) == "io.ReadFull" && len(call.Args) == 2 && f.canon(call.Args[0]) == "r" {
 					viaReader = true
 					return false
 				}
 				if _, isRet := nd.(*ast.ReturnStmt); isRet {
 					ast.Inspect(nd, func(k ast.Node) bool {
-						if sel, ok := k.(*ast.SelectorExpr); ok && wire.Canon(sel) == "r.buffer" {
+						if sel, ok := k.(*ast.SelectorExpr); ok && f.canon(sel) == "r.buffer" {
 							usesScratch = true
 						}
 						return true
@@ -797,7 +997,7 @@ func iohelpDrain(c *core.Ctx, p *load.Prog, rule string, latch bool) {
 		switch x := n.(type) {
 		case *ast.AssignStmt:
 			for i, l := range x.Lhs {
-				if wire.Canon(l) == "er.Err" {
+				if f.canon(l) == "er.Err" {
 					storesErr = true
 				}
 				if id, ok := l.(*ast.Ident); ok && id.Name == "_" && len(x.Rhs) == 1 {
@@ -848,7 +1048,7 @@ func iohelpDrain(c *core.Ctx, p *load.Prog, rule string, latch bool) {
 			})
 			if leaves {
 				exits++
-				if wire.Canon(ifs.Cond) != "err != nil" {
+				if f.canon(ifs.Cond) != "err != nil" {
 					loopOK = false
 				}
 			}
@@ -869,7 +1069,7 @@ func iohelpDrain(c *core.Ctx, p *load.Prog, rule string, latch bool) {
 	copied := map[types.Object]bool{}
 	ast.Inspect(f.fd.Body, func(n ast.Node) bool {
 		if as, ok := n.(*ast.AssignStmt); ok && len(as.Rhs) == 1 && len(as.Lhs) == 2 {
-			if call, ok := as.Rhs[0].(*ast.CallExpr); ok && strings.HasPrefix(wire.Canon(call.Fun), "io.Copy") {
+			if call, ok := as.Rhs[0].(*ast.CallExpr); ok && strings.HasPrefix(f.canon(call.Fun), "io.Copy") {
 				if id, ok := as.Lhs[0].(*ast.Ident); ok && id.Name != "_" {
 					copied[f.info.ObjectOf(id)] = true
 				}
@@ -887,7 +1087,7 @@ func iohelpDrain(c *core.Ctx, p *load.Prog, rule string, latch bool) {
 		for _, st := range ifs.Body.List {
 			if as, ok := st.(*ast.AssignStmt); ok {
 				for _, l := range as.Lhs {
-					if wire.Canon(l) == "er.Err" {
+					if f.canon(l) == "er.Err" {
 						stores = true
 					}
 				}
@@ -909,11 +1109,11 @@ func iohelpDrain(c *core.Ctx, p *load.Prog, rule string, latch bool) {
 					guarded = true
 				}
 			case *ast.BinaryExpr:
-				if x.Op == token.NEQ && (wire.Canon(x.X) == "io.EOF" || wire.Canon(x.Y) == "io.EOF") {
+				if x.Op == token.NEQ && (f.canon(x.X) == "io.EOF" || f.canon(x.Y) == "io.EOF") {
 					filtersEOF = true
 				}
 			case *ast.UnaryExpr:
-				if call, ok := ast.Unparen(x.X).(*ast.CallExpr); ok && x.Op == token.NOT && wire.Canon(call.Fun) == "errors.Is" && len(call.Args) == 2 && wire.Canon(call.Args[1]) == "io.EOF" {
+				if call, ok := ast.Unparen(x.X).(*ast.CallExpr); ok && x.Op == token.NOT && f.canon(call.Fun) == "errors.Is" && len(call.Args) == 2 && f.canon(call.Args[1]) == "io.EOF" {
 					filtersEOF = true
 				}
 			}
@@ -983,9 +1183,9 @@ func iohelpLatchRules(c *core.Ctx, p *load.Prog, r1, r2, r5, r6 string) {
 				continue
 			}
 			// any call that reads from / writes to the underlying stream
-			touches := strings.Contains(wire.Canon(call.Fun), cfg.recv+"."+cfg.field)
+			touches := strings.Contains(f.canon(call.Fun), cfg.recv+"."+cfg.field)
 			for _, a := range call.Args {
-				if wire.Canon(a) == cfg.recv+"."+cfg.field {
+				if f.canon(a) == cfg.recv+"."+cfg.field {
 					touches = true
 				}
 			}
@@ -1005,7 +1205,7 @@ func iohelpLatchRules(c *core.Ctx, p *load.Prog, r1, r2, r5, r6 string) {
 				return true
 			}
 			b, ok := ast.Unparen(ifs.Cond).(*ast.BinaryExpr)
-			if !ok || b.Op != token.NEQ || wire.Canon(b.Y) != "nil" {
+			if !ok || b.Op != token.NEQ || f.canon(b.Y) != "nil" {
 				return true
 			}
 			id, ok := ast.Unparen(b.X).(*ast.Ident)
@@ -1013,7 +1213,7 @@ func iohelpLatchRules(c *core.Ctx, p *load.Prog, r1, r2, r5, r6 string) {
 				return true
 			}
 			for _, s := range ifs.Body.List {
-				if as, ok := s.(*ast.AssignStmt); ok && len(as.Lhs) == 1 && len(as.Rhs) == 1 && wire.Canon(as.Lhs[0]) == cfg.recv+".Err" {
+				if as, ok := s.(*ast.AssignStmt); ok && len(as.Lhs) == 1 && len(as.Rhs) == 1 && f.canon(as.Lhs[0]) == cfg.recv+".Err" {
 					if rid, ok := as.Rhs[0].(*ast.Ident); ok && f.info.ObjectOf(rid) == errObj {
 						latched = true
 					}
@@ -1117,11 +1317,11 @@ func iohelpLatchRules(c *core.Ctx, p *load.Prog, r1, r2, r5, r6 string) {
 				continue
 			}
 			ta, is := as.Rhs[0].(*ast.TypeAssertExpr)
-			if !is || wire.Canon(ta.Type) != "*"+ctor.typ {
+			if !is || f.canon(ta.Type) != "*"+ctor.typ {
 				continue
 			}
-			if wire.Canon(ifs.Cond) == wire.Canon(as.Lhs[1]) && len(ifs.Body.List) == 1 {
-				if r, is := ifs.Body.List[0].(*ast.ReturnStmt); is && len(r.Results) == 1 && wire.Canon(r.Results[0]) == wire.Canon(as.Lhs[0]) {
+			if f.canon(ifs.Cond) == f.canon(as.Lhs[1]) && len(ifs.Body.List) == 1 {
+				if r, is := ifs.Body.List[0].(*ast.ReturnStmt); is && len(r.Results) == 1 && f.canon(r.Results[0]) == f.canon(as.Lhs[0]) {
 					ok = true
 				}
 			}
@@ -1155,20 +1355,20 @@ func iohelpCtorDirect(c *core.Ctx, p *load.Prog, rule string) {
 					}
 				}
 			case *ast.CompositeLit:
-				if wire.Canon(x.Type) != ctor.typ {
+				if f.canon(x.Type) != ctor.typ {
 					return true
 				}
 				lits++
 				found := false
 				for _, el := range x.Elts {
 					kv, is := el.(*ast.KeyValueExpr)
-					if !is || wire.Canon(kv.Key) != ctor.field {
+					if !is || f.canon(kv.Key) != ctor.field {
 						continue
 					}
 					if id, is := ast.Unparen(kv.Value).(*ast.Ident); is && f.info.ObjectOf(id) == param {
 						found = true
 					} else {
-						why = "." + ctor.field + " is initialised with " + wire.Canon(kv.Value)
+						why = "." + ctor.field + " is initialised with " + f.canon(kv.Value)
 					}
 				}
 				if !found {
@@ -1206,14 +1406,14 @@ func iohelpMustStrings(c *core.Ctx, p *load.Prog, rule string) {
 		ast.Inspect(f.fd.Body, func(n ast.Node) bool {
 			switch x := n.(type) {
 			case *ast.IndexExpr:
-				if wire.Canon(x.X) == "buf" {
-					bad = wire.Canon(x)
+				if f.canon(x.X) == "buf" {
+					bad = f.canon(x)
 				}
 			case *ast.SliceExpr:
-				if wire.Canon(x.X) == "buf" {
+				if f.canon(x.X) == "buf" {
 					slices++
-					if wire.Canon(x.Low) != "4" || wire.Canon(x.High) != "4 + sz" {
-						bad = wire.Canon(x)
+					if f.canon(x.Low) != "4" || f.canon(x.High) != "4 + sz" {
+						bad = f.canon(x)
 					}
 				}
 			}
@@ -1235,4 +1435,66 @@ func containsReturn(n ast.Node) bool {
 		return !found
 	})
 	return found
+}
+
+
+// freshRead describes `D := make([]byte, N); r.Read(D)` in a stream helper:
+// the buffer variable, the size expression, and whether the ErrorReader's Read
+// is called with exactly that buffer.
+func (f *ioFn) freshRead() (buf types.Object, size ast.Expr, read bool) {
+	ast.Inspect(f.fd.Body, func(n ast.Node) bool {
+		as, ok := n.(*ast.AssignStmt)
+		if !ok || len(as.Lhs) != 1 || len(as.Rhs) != 1 {
+			return true
+		}
+		call, ok := as.Rhs[0].(*ast.CallExpr)
+		if !ok || wire.Canon(call.Fun) != "make" || len(call.Args) != 2 || wire.Canon(call.Args[0]) != "[]byte" {
+			return true
+		}
+		if id, ok := as.Lhs[0].(*ast.Ident); ok && buf == nil {
+			buf, size = f.info.ObjectOf(id), call.Args[1]
+		}
+		return true
+	})
+	if buf == nil {
+		return
+	}
+	for _, call := range f.calls() {
+		if f.canon(call.Fun) == "r.Read" && len(call.Args) == 1 {
+			if id, ok := ast.Unparen(call.Args[0]).(*ast.Ident); ok && f.info.ObjectOf(id) == buf {
+				read = true
+			}
+		}
+	}
+	return
+}
+
+// resolvesToCall: e is a call of the named function (under conversions), or a
+// variable whose only definition is one.
+func (f *ioFn) resolvesToCall(e ast.Expr, name string) bool {
+	e = ast.Unparen(e)
+	if call, ok := e.(*ast.CallExpr); ok {
+		if tv := f.info.Types[call.Fun]; tv.IsType() && len(call.Args) == 1 {
+			return f.resolvesToCall(call.Args[0], name)
+		}
+		return strings.HasPrefix(f.canon(call), name+"(")
+	}
+	if id, ok := e.(*ast.Ident); ok {
+		obj := f.info.ObjectOf(id)
+		var def ast.Expr
+		defs := 0
+		ast.Inspect(f.fd.Body, func(n ast.Node) bool {
+			if as, ok := n.(*ast.AssignStmt); ok && len(as.Lhs) == len(as.Rhs) {
+				for i, l := range as.Lhs {
+					if lid, ok := l.(*ast.Ident); ok && f.info.ObjectOf(lid) == obj {
+						defs++
+						def = as.Rhs[i]
+					}
+				}
+			}
+			return true
+		})
+		return defs == 1 && f.resolvesToCall(def, name)
+	}
+	return false
 }
